@@ -12,6 +12,7 @@ import (
 )
 
 type dProbe struct {
+	pres                        bool // the value prep returns is itself a flyt.Result
 	fails                       bool
 	prep, exec, fb, post        int
 	execarg, postprep, postexec string
@@ -30,14 +31,20 @@ func dKind(v any) string {
 		if x.IsError() {
 			return "err"
 		}
-		return dKind(x.Value())
+		return "res(" + dKind(x.Value()) + ")"
 	case int:
 		return "item"
 	}
 	return fmt.Sprintf("other:%T", v)
 }
 
-func (p *dProbe) doPrep() (any, error) { p.prep++; return &dPayload{"P"}, nil }
+func (p *dProbe) doPrep() (any, error) {
+	p.prep++
+	if p.pres {
+		return flyt.NewResult(&dPayload{"P"}), nil
+	}
+	return &dPayload{"P"}, nil
+}
 func (p *dProbe) doExec(arg any) (any, error) {
 	p.exec++
 	p.execarg = dKind(arg)
@@ -187,8 +194,8 @@ func newDStruct(mask int, p *dProbe) flyt.Node {
 }
 
 type dCell struct {
-	Kind                    string
-	Hp, He, Hpo, Hfb, Fails bool
+	Kind                          string
+	Hp, He, Hpo, Hfb, Fails, Pres bool
 }
 
 func buildDefaultsNode(c dCell, p *dProbe) flyt.Node {
@@ -300,7 +307,10 @@ func buildDefaultsNode(c dCell, p *dProbe) flyt.Node {
 					p.postexec = "lengths differ"
 				}
 				for _, r := range x {
-					k := dKind(r)
+					k := dKind(r.Value())
+					if r.IsError() {
+						k = "err"
+					}
 					if p.postexec == "" {
 						p.postexec = k
 					} else if p.postexec != k {
@@ -317,7 +327,7 @@ func buildDefaultsNode(c dCell, p *dProbe) flyt.Node {
 }
 
 func runDefaultsCell(c dCell) Event {
-	ev := Event{"ev": "defaults", "kind": c.Kind, "hp": c.Hp, "he": c.He, "hpo": c.Hpo, "hfb": c.Hfb, "fails": c.Fails,
+	ev := Event{"ev": "defaults", "kind": c.Kind, "hp": c.Hp, "he": c.He, "hpo": c.Hpo, "hfb": c.Hfb, "fails": c.Fails, "pres": c.Pres,
 		"prep": 0, "exec": 0, "fb": 0, "post": 0, "execarg": "none", "postprep": "none", "postexec": "none",
 		"iserr": false, "errmatch": false, "action": "", "route": "none", "panicked": false}
 	func() {
@@ -328,7 +338,7 @@ func runDefaultsCell(c dCell) Event {
 			}
 		}()
 		// on its own
-		p := &dProbe{fails: c.Fails, errTok: errors.New("the attempt failed"), execarg: "none", postprep: "none", postexec: "none"}
+		p := &dProbe{pres: c.Pres, fails: c.Fails, errTok: errors.New("the attempt failed"), execarg: "none", postprep: "none", postexec: "none"}
 		act, err := flyt.Run(context.Background(), buildDefaultsNode(c, p), flyt.NewSharedStore())
 		ev["prep"], ev["exec"], ev["fb"], ev["post"] = p.prep, p.exec, p.fb, p.post
 		ev["execarg"], ev["postprep"], ev["postexec"] = p.execarg, p.postprep, p.postexec
@@ -341,7 +351,7 @@ func runDefaultsCell(c dCell) Event {
 			ev["action"] = string(act)
 		}
 		// as the first step of a flow: which successor runs
-		p2 := &dProbe{fails: c.Fails, errTok: errors.New("the attempt failed"), execarg: "none", postprep: "none", postexec: "none"}
+		p2 := &dProbe{pres: c.Pres, fails: c.Fails, errTok: errors.New("the attempt failed"), execarg: "none", postprep: "none", postexec: "none"}
 		first := buildDefaultsNode(c, p2)
 		route := "none"
 		mk := func(name string) flyt.Node {
@@ -360,7 +370,7 @@ func init() {
 	families["defaults"] = func(o *Out, scnFile string, seed int64, count int, modes string, opts map[string]string) {
 		id := 0
 		for _, line := range readLines(scnFile) {
-			c := dCell{Kind: asStr(line["kind"]), Hp: asBool(line["hp"]), He: asBool(line["he"]), Hpo: asBool(line["hpo"]), Hfb: asBool(line["hfb"]), Fails: asBool(line["fails"])}
+			c := dCell{Kind: asStr(line["kind"]), Hp: asBool(line["hp"]), He: asBool(line["he"]), Hpo: asBool(line["hpo"]), Hfb: asBool(line["hfb"]), Fails: asBool(line["fails"]), Pres: asBool(line["pres"])}
 			id++
 			o.WriteScenario(id, "defaults", "tlc-cells", map[string]any{"kind": c.Kind}, nil, []Event{runDefaultsCell(c)})
 		}
